@@ -130,6 +130,24 @@ def run_case(kind, p):
         msgs.append(f"find_center of the fit with centre {None if c is None else cc.tolist()} and weights "
                     f"{'yes' if w is not None else 'no'} gives {cen_w.tolist()}, which the fitted map sends to {img_w.tolist()} "
                     f"and the true map to {true_img.tolist()}")
+    # call history: the caller's reference buffer is refilled in place with other points between calls (frame after frame,
+    # with and without weights, same centre): every fit is the fit of what the buffer holds at the time of the call
+    rng2 = np.random.default_rng(p["seed"] + 7)
+    buf = np.array(ref, dtype=np.float64)
+    L, t = np.asarray(p["L"]), np.asarray(p["t"])
+    for step in range(3):
+        w_ = None if step != 1 else w
+        tgt = buf @ L.T + t
+        f_ = grm.get_transformation(buf, tgt, center=c, weighs=w_)
+        b_ = grm.do_transformation(f_, buf, center=c)
+        if np.abs(b_ - tgt).max() > 1e-7 * max(1.0, np.abs(tgt).max()):
+            msgs.append(f"call {step + 1} with a reference buffer refilled in place (weights {'yes' if w_ is not None else 'no'}): "
+                        f"the exact affine relation is not reproduced, max error {np.abs(b_ - tgt).max():.3g}")
+            break
+        if step == 0:
+            buf[:] = buf[::-1] * rng2.uniform(0.5, 1.5) + rng2.uniform(-20, 20, 2)      # other points, same array object
+        else:
+            buf += rng2.uniform(-8, 8, 2)                                              # drift corrected in place
     return msgs
 
 
